@@ -126,6 +126,7 @@ template<int D> void observe_iters(view_t<D>& v, view_t<D>& tw, twin_req const& 
 			typename view_t<D>::const_iterator c = v.begin() + (q.g1 == 0 ? p1 : 0);
 			typename view_t<D>::iterator m = v.begin() + (q.g1 == 0 ? p1 : 0);
 			os << ",\"const_eq\":" << ((c == m) ? 1 : 0);
+			os << ",\"size\":" << static_cast<long>(v.size()) << ",\"end_minus_begin\":" << static_cast<long>(v.end() - v.begin());   // the library's own size()
 		});
 		if(!fin) { os << ",\"const_eq\":{\"abort\":" << guard::last_json() << "}"; }
 	} else {
@@ -141,7 +142,8 @@ template<int D> void observe_iters(view_t<D>& v, view_t<D>& tw, twin_req const& 
 			auto c = ces.begin() + pp;  // const_iterator
 			os << ",\"const_eq\":" << ((c - ces.begin()) == pp ? 1 : 0);
 			long ne = static_cast<long>(es.size());
-			if(ne > 0) { os << ",\"front\":" << cellno(es.front()) << ",\"back\":" << cellno(es.back()) << ",\"at_p1\":" << (pp < ne ? cellno(es[pp]) : -1); }
+			if(ne > 0) { os << ",\"front\":" << cellno(es.front()) << ",\"back\":" << cellno(es.back()) << ",\"at_p1\":" << (pp < ne ? cellno(es[pp]) : -1);
+				std::vector<long> all; for(long k = 0; k != ne; ++k) { all.push_back(cellno(es[k])); } os << ",\"at_all\":"; jlist(os, all); }   // elements()[k] for every k
 		});
 		if(!fin) { os << ",\"const_eq\":{\"abort\":" << guard::last_json() << "}"; }
 	}
